@@ -66,6 +66,8 @@ type Exec struct {
 	globalsSeen map[string]bool
 	globalList  []Term
 	rangeOf     map[*ssa.Range]Val
+	idBound     map[string]Term // heap array symbol (of a slice-id leaf) -> frontier at its creation
+	refBound    map[string]Term // heap array symbol -> allocation frontier at its creation
 	localArrs   []localArr      // arrays allocated by the code under verification
 	escaped     map[string]bool // by ref term: handed to a call that is not followed
 	curArgs     []Val
@@ -129,6 +131,9 @@ func (x *Exec) addObl(name, kind, text string, props []string, part OblPart, adv
 func (x *Exec) newState() *State {
 	st := &State{heap: map[string]Term{}, ghost: map[string]Val{}, res: baseResolver}
 	st.ctr = x.c.Named("ctr0", SRef)
+	st.sctr = x.c.Named("sctr0", SBV(64))
+	x.c.Assume(Op("bvult", SBool, BVLit(0, 64), st.sctr))
+	x.c.Assume(Op("bvult", SBool, st.sctr, BVLit(1<<62, 64)))
 	st.held = x.c.Named("held0", SArr(SBV(64), SBool))
 	return st
 }
@@ -188,7 +193,19 @@ func arrayOf(t types.Type) (*types.Array, bool) {
 // arrSliceID: the backing store of a top-level array object is kept in the
 // slice-element heap under this identity.
 func (x *Exec) arrSliceID(arrT types.Type, ref Term) Term {
-	return x.c.App("arrslice_"+typeKey(arrT), SBV(64), ref)
+	// the backing store of an array object is identified by the object: 2^62 + ref
+	// (stores handed out by make / append are numbered below 2^62; ids of other
+	// origin -- results of library functions -- are unconstrained)
+	_ = arrT
+	return x.c.Define("arrstore", Op("bvadd", SBV(64), BVLit(1<<62, 64), Extend(ref, 64, false)))
+}
+
+// olderSliceID: id denotes a backing store that existed when the frontiers were sb
+// (make / append stores) and cb (objects).
+func olderSliceID(id, sb, cb Term) Term {
+	return Or(Op("bvult", SBool, id, sb),
+		And(Op("bvuge", SBool, id, BVLit(1<<62, 64)), Op("bvult", SBool, id, Op("bvadd", SBV(64), BVLit(1<<62, 64), Extend(cb, 64, false)))),
+		Op("bvuge", SBool, id, Term{"#x8000000000000000", SBV(64)}))
 }
 
 // leafLoc describes where one leaf of an addressed value lives.
@@ -248,6 +265,33 @@ func (x *Exec) load(st *State, a *Addr, reach Term) Val {
 		out.L[i] = x.c.Define("ld", t)
 		if l.isRef() {
 			x.c.Assume(Imp(reach, Op("bvult", SBool, out.L[i], st.ctr)))
+			// what an initial / havocked heap holds at this place is older than that heap
+			if len(x.refBound) > 0 {
+				for sym := range x.c.FreeSymbols(arr) {
+					if b, ok := x.refBound[sym]; ok && x.c.origin[sym] == locs[i].key {
+						v := Select(Term{sym, locs[i].srt}, locs[i].idx1)
+						if locs[i].idx2 != nil {
+							v = Select(v, *locs[i].idx2)
+						}
+						x.c.Assume(Op("bvult", SBool, v, b))
+					}
+				}
+			}
+		}
+		if strings.HasSuffix(l.Path, "#id") && l.Sort == SBV(64) {
+			// a stored slice was handed out before: below the frontier of fresh stores
+			x.c.Assume(Imp(reach, olderSliceID(out.L[i], st.sctr, st.ctr)))
+			// and what an initial / havocked heap holds at this place is older than that heap
+			if locs[i].idx2 == nil && len(x.idBound) > 0 {
+				for sym := range x.c.FreeSymbols(arr) {
+					if b, ok := x.idBound[sym]; ok && x.c.origin[sym] == locs[i].key {
+						if cb, ok := x.refBound[sym]; ok {
+							v := Select(Term{sym, locs[i].srt}, locs[i].idx1)
+							x.c.Assume(olderSliceID(v, b, cb))
+						}
+					}
+				}
+			}
 		}
 	}
 	return out
@@ -768,6 +812,12 @@ func (x *Exec) havocEffects(st *State, eff *Effects, tag string) {
 		old := st.ctr
 		st.ctr = x.c.Fresh("ctr_"+tag, SRef)
 		x.c.Assume(Op("bvule", SBool, old, st.ctr))
+		olds := st.sctr
+		st.sctr = x.c.Fresh("sctr_"+tag, SBV(64))
+		x.c.Assume(Op("bvule", SBool, olds, st.sctr))
+		x.c.Assume(Op("bvult", SBool, st.sctr, BVLit(1<<62, 64)))
+		st.res.sctr = st.sctr
+		st.res.ctr = st.ctr
 	}
 }
 
